@@ -122,8 +122,15 @@ func genC15(r *rt.Rand, tier string, idx int) *world.Scenario {
 		sc.Class += "+oracle-fault"
 		// (a standby polls the lock about once a second until the lease expires: the call right after
 		// its successful lock update is somewhere among its first ~16 oracle reads)
-		for _, k := range r.Perm(16)[:4] {
-			sc.Plan = append(sc.Plan, &simkv.Fault{Op: "tso", Node: 2, Nth: k + 1, Effect: "err"})
+		if sc.Engine == "tikv" && r.Chance(0.5) {
+			// ... below the adapter: after the k-th write of the election record by that node the placement
+			// driver answers no timestamp request for a moment (every client connection sees the outage)
+			sc.Class += "(below-the-adapter)"
+			sc.Plan = append(sc.Plan, &simkv.Fault{Op: "commit", Class: "lock", Node: 2, Nth: 1 + r.Intn(3), Effect: "hook:tikv-oracle-outage"})
+		} else {
+			for _, k := range r.Perm(16)[:4] {
+				sc.Plan = append(sc.Plan, &simkv.Fault{Op: "tso", Node: 2, Nth: k + 1, Effect: "err"})
+			}
 		}
 	}
 	sc.MaxSteps = 60000
@@ -148,6 +155,10 @@ func c15Custom(t *testing.T, sc *world.Scenario, out *Outcome) {
 	w.YieldOnSetRevision = true
 	s := w.S
 	w.KV.LockKey = []byte(prefix + "/election")
+	w.KV.OnHookEffect = func(string) {
+		w.TiKVOracleOutage = 3
+		out.probe("tikv-oracle-outage-after-lock-write")
+	}
 	start := func(n *world.Node) leader.LeaderElection {
 		le := leader.NewLeaderElection(n.B, n.M, func(context.Context) {}, func() {})
 		s.Go(fmt.Sprintf("elector%d", n.ID), n.ID, le.Campaign)
